@@ -33,6 +33,7 @@ func (c TestFam) fields() []field {
 		{"data", []string{"ok", "bad"}, "data-file"},
 		{"lib", []string{"ok", "bad"}, "dep-source"},
 		{"tcmd", []string{"0", "1", "2"}, "test_cmd"},
+		{"fgd", []string{"ok", "ok2", "bad"}, "data-file-behind-filegroup"}, // two different passing contents, then a failing one
 	}
 	if c.WithBin {
 		fs = append(fs, field{"bin", []string{"ok", "bad"}, "test-binary-source"})
@@ -59,7 +60,7 @@ func (c TestFam) Initial() Src {
 		s["bin"] = "ok"
 	}
 	if c.WithArgs {
-		s["lib"], s["tcmd"] = "ok", "0"
+		s["lib"], s["tcmd"], s["fgd"] = "ok", "0", "ok"
 	}
 	return s
 }
@@ -77,7 +78,7 @@ func (c TestFam) Edits(s Src) []Edit {
 
 // TestCmd is the text of the test command for s.
 func (c TestFam) TestCmd(s Src) string {
-	base := "read -r d < p/data.txt; read -r l < p/lib.out; read -r b < $TEST; [ \"$d\" = ok ] && [ \"$l\" = ok ] && [ \"$b\" = ok ]"
+	base := "read -r d < p/data.txt; read -r l < p/lib.out; read -r b < $TEST; read -r f < p/fd.txt; [ \"$d\" = ok ] && [ \"$l\" = ok ] && [ \"$b\" = ok ] && [ \"${f#ok}\" != \"$f\" ]"
 	if c.WithDir {
 		base += " && [ -e p/ddir/x.txt ]"
 	}
@@ -97,13 +98,14 @@ func (c TestFam) TestCmd(s Src) string {
 func (c TestFam) Files(s Src) map[string]string {
 	var b strings.Builder
 	fmt.Fprintf(&b, "genrule(name=\"lib\", srcs=[\"lib.txt\"], outs=[\"lib.out\"], cmd=%q)\n", fmt.Sprintf(logPfx, "//p:lib")+catCmd)
-	data := "\"data.txt\", \":lib\""
+	fmt.Fprintf(&b, "filegroup(name=\"fgd\", srcs=[\"fd.txt\"])\n") // its output is a hard link to the source file
+	data := "\"data.txt\", \":lib\", \":fgd\""
 	if c.WithDir {
 		data += ", \"ddir\""
 	}
 	fmt.Fprintf(&b, "gentest(name=\"t\", srcs=[\"t.txt\"], outs=[\"t.bin\"], data=[%s], no_test_output=True, cmd=%q, test_cmd=%q)\n",
 		data, fmt.Sprintf(logPfx, "//p:t#build")+catCmd, c.TestCmd(s))
-	fs := map[string]string{"p/BUILD": b.String(), "p/lib.txt": s["lib"] + "\n", "p/t.txt": s["bin"] + "\n", "p/data.txt": s["data"] + "\n"}
+	fs := map[string]string{"p/BUILD": b.String(), "p/lib.txt": s["lib"] + "\n", "p/t.txt": s["bin"] + "\n", "p/data.txt": s["data"] + "\n", "p/fd.txt": s["fgd"] + "\n"}
 	if c.WithDir {
 		fs["p/ddir/"+s["dname"]] = "x\n"
 	}
@@ -111,7 +113,7 @@ func (c TestFam) Files(s Src) map[string]string {
 }
 
 func (c TestFam) Targets(s Src) []Target {
-	return []Target{{"//p:lib", []string{"plz-out/gen/p/lib.out"}}, {"//p:t", []string{"plz-out/bin/p/t.bin"}}}
+	return []Target{{"//p:lib", []string{"plz-out/gen/p/lib.out"}}, {"//p:fgd", []string{"plz-out/gen/p/fd.txt"}}, {"//p:t", []string{"plz-out/bin/p/t.bin"}}}
 }
 
 func (c TestFam) Args(s Src) ([]string, []string) {
@@ -130,7 +132,7 @@ func (c TestFam) Passes(s Src) bool {
 	if c.WithArgs && s["targs"] == "skip" {
 		return true
 	}
-	ok := s["data"] == "ok" && s["lib"] == "ok" && s["bin"] == "ok" && s["tcmd"] != "2"
+	ok := s["data"] == "ok" && s["lib"] == "ok" && s["bin"] == "ok" && s["tcmd"] != "2" && strings.HasPrefix(s["fgd"], "ok")
 	if c.WithDir {
 		ok = ok && s["dname"] == "x.txt"
 	}
@@ -140,7 +142,7 @@ func (c TestFam) Passes(s Src) bool {
 // RuntimeSig is everything the statement lists as a runtime input of the test: test command, test binary (its source),
 // data files (content, and names inside a data directory), runtime dependencies (the library's source).
 func (c TestFam) RuntimeSig(s Src) string {
-	sig := "test_cmd=" + s["tcmd"] + "|test-binary=" + s["bin"] + "|data-file=" + s["data"] + "|dep-output=" + s["lib"]
+	sig := "test_cmd=" + s["tcmd"] + "|test-binary=" + s["bin"] + "|data-file=" + s["data"] + "|dep-output=" + s["lib"] + "|data-file-behind-filegroup=" + s["fgd"]
 	if c.WithArgs {
 		sig += "|test-arguments=" + s["targs"] // a run restricted by arguments is not a run of the whole test
 	}
